@@ -404,9 +404,6 @@ Proof.
       by apply (ite_rec_counts fuel s L g u v r s').
     - intros _ _ w ->. by destruct Hr as (?&_). }
   destruct fuel as [|f]; [lia|]. cbn [ite_rec] in Hrun.
-  assert (Hsame : (r, s') = (r, s') → s' = s → safe s s' ∧
-            (valid s u → valid s v → ∀ w, r = Ok w → valid s' w) →
-            safe s s' ∧ (valid s u → valid s v → ∀ w, r = Ok w → valid s' w)) by auto.
   destruct (decide (g = 1%Z)) as [->|Hg1].
   { injection Hrun as <- <-. split; [by apply safe_refl|]. by intros ? _ w [= <-]. }
   destruct (decide (g = (-1)%Z)) as [->|Hgm1].
